@@ -9,6 +9,7 @@ ID = "C05"
 LEVEL = "exploration"
 ENV = {"x64": False, "devices": 1}
 BUDGET = {"quick": 120, "thorough": 2400}
+TRACE_CASES = True      # expensive cases: record the case in flight so a hang can be named
 RULE = (
     "Hypothesis-built (graft type: Distributed Shampoo's 6 non-NONE types / "
     "Tearfree SGD, RMSPROP, ADAFACTOR) x preconditioner representation {full, "
